@@ -121,7 +121,7 @@ func engineNotebook(ctx *Ctx) {
 		mainCmds := vlib.StripCaches(vlib.GenCommands(r, vlib.DBSpec{N: 3 + r.Intn(8)}))
 		mainP := filepath.Join(base, "main.yml")
 		mainKind := "generated"
-		switch ctx.G(hI) % 8 {
+		switch (ctx.G(hI) + hI) % 8 { // (spread over the shards: histories on the shipped database are the slow ones)
 		case 3: // the shipped database as the main one (what a user has): thousands of entries before the notebook's
 			mainCmds = ctx.Shipped().Commands
 			mainP = ctx.ShippedPath()
